@@ -519,7 +519,7 @@ func c09(c *hx.Ctx) int {
 		return c09worker(c)
 	}
 	if c.Quick() {
-		c.Budget = 240 * second
+		c.Budget = 420 * second
 	} else {
 		c.Budget = 1500 * second
 	}
